@@ -1,11 +1,18 @@
 import CM.Proofs.Refs
 import CM.Proofs.Label
 import CM.Spec.Label
+import CM.Proofs.RefKeysRewrite
 /-
 C12 — references resolve by normalised label; first definition wins.
 Proved here: clause (b) for the extraction (`Extract` = first definition in document pre-order, for every
-forest of trees). Clause (a) (`normalizeLabel = normalizeLabelSpec`) is `normalize_eq_spec` below; clause (c) (a reference node exists iff its label is a key) needs the inline
-parser model and is monitored on the implementation.
+forest of trees). Clause (a) (`normalizeLabel = normalizeLabelSpec`) is `normalize_eq_spec` below. Whole-`Parse` clauses, as
+theorems about `Model.parseDoc` (the model of `Parse`: block phase, `Extract`, `Rewrite`; tied to the code by the `parse` op):
+the returned map is the extraction from the root blocks in order - from the block-phase trees by definition and from the FINAL
+trees because `Rewrite` never changes what `Extract` reads (`parse_refs_eq_extractAll_final`); its keys are pairwise different,
+non-empty and in NORMAL FORM (`parse_keys_normalized`, under the two table facts `FoldOK` about `cases.Fold`, checked per label
+at run time); a key's value is the first definition in document order (`parse_lookup_first`); the label of every USE is
+normalised by the same function (`use_label_eq_spec`, `use_label_fixed`). Still monitored only: that a reference node exists iff
+its normalised label is a key (needs an invariant of the inline parser's bracket handling).
 -/
 namespace CM.Props.C12
 open CM CM.Model CM.Proofs
@@ -46,6 +53,63 @@ theorem wsNormal_idem (label : Bytes) : Spec.wsNormal (Spec.wsNormal label) = Sp
 
 theorem wsNormal_fixed_iff (l : Bytes) : Proofs.isWsNormal l = true ↔ Spec.wsNormal l = l :=
   Proofs.isWsNormal_iff_fixed l
+
+open CM.Proofs.RK in
+/-- The reference map `Parse` returns is `Extract` applied to the root blocks in order. -/
+theorem parse_refs_eq_extractAll (x : PExt) (ix : IExt) (source : Bytes) :
+    (parseDoc x ix source).refs =
+      extractAll x.ext ((parseDoc x ix source).roots.map fun r => (r.root.source, pbToTree r.root.block)) [] :=
+  RK.parse_refs_eq_extractAll x ix source
+
+open CM.Proofs.RK in
+/-- … and to the FINAL trees (after `Rewrite`), whenever the inline phase completed on every root: `Rewrite` replaces
+    only inline children of blocks that hold unparsed text, which `Extract` never reads. -/
+theorem parse_refs_eq_extractAll_final (x : PExt) (ix : IExt) (source : Bytes)
+    (hok : ∀ r ∈ (parseDoc x ix source).roots, treeOk r = true) :
+    (parseDoc x ix source).refs =
+      extractAll x.ext ((parseDoc x ix source).roots.map fun r => (r.root.source, finalTree r)) [] :=
+  RK.parse_refs_eq_extractAll_final' x ix source hok
+
+open CM.Proofs.RK in
+/-- Every key of the returned map is non-empty and a fixed point of label normalisation (collapse, trim, fold), for
+    every input - given the two facts about the external fold on white-space-normal labels (idempotent; keeps them
+    white-space normal). -/
+theorem parse_keys_normalized (x : PExt) (hf : FoldOK x.fold) (ix : IExt) (source : Bytes) (k : Bytes) (d : LinkDef)
+    (h : (k, d) ∈ (parseDoc x ix source).refs) : normalizeLabel x.fold k = k ∧ k ≠ [] :=
+  RK.parse_keys_normalized x hf ix source k d h
+
+open CM.Proofs.RK in
+/-- Keys are pairwise different. -/
+theorem parse_keys_nodup (x : PExt) (ix : IExt) (source : Bytes) : KeysNodup (parseDoc x ix source).refs :=
+  RK.parse_keys_nodup x ix source
+
+open CM.Proofs.RK in
+/-- First definition wins, for the whole document: the value of a key is that of the first definition with that
+    normalised label in document order over all root blocks (containers included). -/
+theorem parse_lookup_first (x : PExt) (ix : IExt) (source : Bytes) (k : Bytes) (hk : k.isEmpty = false) :
+    (parseDoc x ix source).refs.lookup k =
+      (((parseDoc x ix source).roots.flatMap fun r => defsNode x.ext r.root.source (pbToTree r.root.block)).find?
+        (fun p => p.1 == k)).map (·.2) :=
+  RK.parse_lookup_first x ix source k hk
+
+open CM.Proofs.RK in
+/-- The label of a USE (collapsed and shortcut references, and the labels of definitions) is normalised by the
+    specification's function applied to the label's text as the reader delivers it … -/
+theorem use_label_eq_spec (fold : Bytes → Bytes) (src : Bytes) (nodes : List Tree) (start stop : Nat) :
+    transformLinkReferenceSpan fold src nodes start stop =
+      Spec.normalizeLabelSpec fold (refTextLoop src stop (rdFuel src nodes) (newReader nodes start) false []) :=
+  RK.transformLinkReferenceSpan_eq_spec fold src nodes start stop
+
+open CM.Proofs.RK in
+/-- … and is itself a normal form, so matching a use against the map compares two normal forms. -/
+theorem use_label_fixed {fold : Bytes → Bytes} (hf : FoldOK fold) (src : Bytes) (nodes : List Tree) (start stop : Nat) :
+    normalizeLabel fold (transformLinkReferenceSpan fold src nodes start stop) =
+      transformLinkReferenceSpan fold src nodes start stop :=
+  RK.use_label_fixed hf src nodes start stop
+
+open CM.Proofs.RK in
+/-- The fold hypotheses are satisfiable by a fold that is not the identity. -/
+example : FoldOK asciiLower := FoldOK_asciiLower
 
 -- Non-vacuity
 private def b (s : String) : Bytes := s.toUTF8.toList
